@@ -1182,6 +1182,11 @@ func (r *Raft) restoreUserSnapshot(meta *SnapshotMeta, reader io.Reader) error {
 		return ErrRaftShutdown
 	}
 	if err := fsm.Error(); err != nil {
+		if err == ErrRaftShutdown {
+			// The server is stopping; the FSM has not failed. Report it to
+			// the caller instead of taking the process down.
+			return err
+		}
 		panic(fmt.Errorf("failed to restore snapshot: %v", err))
 	}
 
